@@ -86,6 +86,30 @@ Example C16_render_nonvacuous :
   render [(k_from, [49;48;48]%N); (k_until, [49;48;53]%N)] 0 0 = Status 422.
 Proof. vm_compute. repeat split; reflexivity. Qed.
 
+(* which body parser C16_ack speaks about when a request carries BOTH a Content-Type header and a format parameter
+   (ip_format = select_format format content-type): a binary Content-Type wins over every format parameter — except that
+   format=tree wins over the trie header, tree being tested first — and without a binary header or a binary format the
+   parameter chooses between lines and collapsed text (unknown and empty formats: collapsed text) *)
+Theorem C16_content_type_tree_wins : forall fmt, select_format fmt ct_tree = FTree.
+Proof. exact select_format_ct_tree. Qed.
+Print Assumptions C16_content_type_tree_wins.
+
+Theorem C16_content_type_trie_wins : forall fmt, beqb fmt v_tree = false -> select_format fmt ct_trie = FTrie.
+Proof. exact select_format_ct_trie. Qed.
+Print Assumptions C16_content_type_trie_wins.
+
+Theorem C16_format_text : forall fmt ct, beqb fmt v_tree = false -> beqb fmt v_trie = false ->
+  beqb ct ct_tree = false -> beqb ct ct_trie = false ->
+  select_format fmt ct = if beqb fmt v_lines then FLines else FGroups.
+Proof. exact select_format_text. Qed.
+Print Assumptions C16_format_text.
+
+Example C16_content_type_nonvacuous :
+  select_format [102;111;108;100;101;100]%N ct_trie = FTrie /\ select_format v_lines ct_trie = FTrie /\
+  select_format [] ct_trie = FTrie /\ select_format v_tree ct_trie = FTree /\ select_format v_trie ct_tree = FTree /\
+  select_format [102;111;108;100;101;100]%N [] = FGroups.
+Proof. vm_compute. repeat split; reflexivity. Qed.
+
 (* ---------------------------------------------------------------------------------------------------------------- *)
 (* The same statements for the CONCRETE handler (Proofs/C16Concrete.v): profile trees of Model/Tree.v, the four body
    parsers of Model/Ingest.v (TreeCodec, TTrie, TextFormats), Key.parse, the metadata defaults of Model/Ingest.v and the
